@@ -107,22 +107,22 @@ def replace(eng, v, old, new):
     return build([p.replace(old, new) if isinstance(p, str) else p for p in parts])
 
 
-def strip(eng, v):
+def strip(eng, v, left=True):
     parts = parts_of(v)
     if not parts:
         return ''
     out = list(parts)
     # leading
-    while out and isinstance(out[0], str):
+    while left and out and isinstance(out[0], str):
         s = out[0].lstrip()
         if s:
             out[0] = s
             break
         out.pop(0)
     else:
-        if out and not (WS <= excl(eng, out[0])):
+        if left and out and not (WS <= excl(eng, out[0])):
             raise Unsupported('strip: leading atom may start with whitespace')
-    if out and not isinstance(out[0], str):
+    if left and out and not isinstance(out[0], str):
         # an atom at the front: safe only if it cannot be empty-or-whitespace-leading; whitespace-free is enough when it
         # is followed by nothing strippable
         if not (WS <= excl(eng, out[0])):
